@@ -13,20 +13,16 @@ def run_family(ctx, name: str, cases: list) -> dict:
     logging.disable(logging.CRITICAL)
     traces = [reconsim.run_schedule({}, sch, seed=ctx.seed * 31 + i) for i, sch in enumerate(cases)]
     findings = []
-    for off in range(0, len(traces), 2000):
-        part = traces[off : off + 2000]
-        f = ctx.tmp / f"recon-{name}-{off}.json"
-        f.write_text(json.dumps([{"rows": [{"e": r["e"], "t": r["t"], "snap": r.get("snap", {"rs": "", "started": False, "tries": 0, "timer": -1, "listen": False})} for r in t["rows"]]} for t in part]))
-        r = ctx.tlc("TraceReconnect", workers=1, env={"TRACE_FILE": str(f)}, timeout=3000)
-        if "Model checking completed" not in r.stdout:
-            raise TLCFailure("trace validation did not complete:\n" + r.stdout[-3000:])
-        f.unlink()
-        ctx.traces_validated += len(part)
-        for a, b in re.findall(r'<<"REJECT", (\d+), (\d+)>>', r.stdout):
-            idx, line = int(a) - 1, int(b)
-            t = part[idx]
-            row = t["rows"][line - 1] if line - 1 < len(t["rows"]) else {"e": ["end"]}
-            findings.append({"event": row["e"][0], "schedule": cases[off + idx], "line": line, "rows": t["rows"][max(0, line - 8) : line + 2]})
+    from vf import tracecheck
+
+    norm = [{"rows": [{"e": r["e"], "t": r["t"], "snap": r.get("snap", {"rs": "", "started": False, "tries": 0, "timer": -1, "listen": False})} for r in t["rows"]]} for t in traces]
+    res = tracecheck.run_batch(ctx, "TraceReconnect", norm, batch=2000, tag=name)
+    for idx, line in res["rejected"]:
+        t = traces[idx]
+        row = t["rows"][line - 1] if line - 1 < len(t["rows"]) else {"e": ["end"]}
+        findings.append({"event": row["e"][0], "schedule": cases[idx], "line": line, "rows": t["rows"][max(0, line - 8) : line + 2]})
+    for idx, invname in res["invariant"]:
+        findings.append({"event": "invariant:" + invname, "schedule": cases[idx], "line": 0, "rows": traces[idx]["rows"][-10:]})
     ev = [r["e"][0] for t in traces for r in t["rows"]]
     reach = {k: ev.count(k) for k in ("attempt", "error_cb", "connect_cb", "disconnect_cb", "zc_add", "zc_remove", "stop_ret", "mdns")}
     reach["max_tries_seen"] = max([r["snap"]["tries"] for t in traces for r in t["rows"] if "snap" in r and r["snap"]["tries"] < 100] or [0])
